@@ -169,6 +169,8 @@ func C21(run *Run) {
 			{T: "folder", R: "member", Rw: &Rewrite{K: "union", Ch: []*Rewrite{{K: "this"}, {K: "ttu", TS: "parent", Rel: "member"}}}, Restr: []Restr{{T: "user"}}},
 			{T: "folder", R: "admin", Rw: &Rewrite{K: "this"}, Restr: []Restr{{T: "user"}}},
 			{T: "folder", R: "moderator", Rw: &Rewrite{K: "inter", Ch: []*Rewrite{{K: "computed", Rel: "admin"}, {K: "computed", Rel: "member"}}}, Restr: []Restr{}},
+			// the cycle member feeds the output and the starved intersection at the same time
+			{T: "folder", R: "either", Rw: &Rewrite{K: "union", Ch: []*Rewrite{{K: "computed", Rel: "member"}, {K: "computed", Rel: "moderator"}}}, Restr: []Restr{}},
 		}}
 		depth := run.Pick(150, 400)
 		var ts []Tuple
@@ -180,7 +182,7 @@ func C21(run *Run) {
 			run.Inconclusive("deep hierarchy setup failed: %v", err)
 		}
 		for _, eng := range []string{"pipeline:d20", "pipeline:c1:q1:p1:d20", "pipeline:c2:q0:p3:d20"} {
-			for _, rel := range []string{"moderator", "member"} {
+			for _, rel := range []string{"moderator", "member", "either"} {
 				ev := &ListObjectsEv{Eng: eng, T: "folder", R: rel, U: Subj{"user", "a", ""}, Ctx: Ctx{}}
 				tr.begin()
 				v.RunLO(bg, ev)
@@ -189,7 +191,7 @@ func C21(run *Run) {
 				lines = append(lines, got...)
 				run.Evals++
 				want := 0
-				if rel == "member" {
+				if rel != "moderator" {
 					want = depth + 1
 				}
 				if ev.Errk != "hang" && (ev.IsErr || len(ev.Got) != want) {
